@@ -1405,10 +1405,42 @@ static const char *make_output_filename(char *buf, size_t buf_size,
 }
 
 
-//! Whether two names denote the same file: spelled alike, or (a name like './x.c' for 'x.c', a hard link) the same file on disk
+//! Removes './' components and repeated '/' from a path name
+static string plain_path(const char *filename)
+{
+   string out;
+
+   for (const char *p = filename; *p != 0; p++)
+   {
+      const bool at_start = (  out.empty()
+                            || out.back() == '/');
+
+      if (  at_start
+         && p[0] == '.'
+         && p[1] == '/')
+      {
+         p++;            // skip './'
+         continue;
+      }
+
+      if (  p[0] == '/'
+         && !out.empty()
+         && out.back() == '/')
+      {
+         continue;       // skip the second '/' of '//'
+      }
+      out.push_back(*p);
+   }
+
+   return(out);
+}
+
+
+//! Whether two names denote the same file: spelled alike (up to './' and '//'), or (a hard link, a link in the path) the same file on disk
 static bool is_same_file(const char *filename1, const char *filename2)
 {
-   if (strcmp(filename1, filename2) == 0)
+   if (  strcmp(filename1, filename2) == 0
+      || plain_path(filename1) == plain_path(filename2))
    {
       return(true);
    }
